@@ -47,6 +47,11 @@ pub struct CalCase {
     /// -1: one ns nearer to r1 than the tie, 0: exact tie, +1: one ns nearer to r2
     pub delta: i8,
     pub mode: Mode,
+    /// the other value is exactly start + r2 units where the addition had to clamp the day (start on the 29th..31st):
+    /// the truncated difference is r2 - 1 units and some days, the progress towards r2 is exactly 1 and the result
+    /// must be r2 under every mode (NudgeToCalendarUnit: "If progress = 1, roundedUnit = abs(r2)")
+    #[serde(default)]
+    pub end_clamped: bool,
 }
 
 pub struct CalSub;
@@ -63,12 +68,13 @@ impl SubCheck for CalSub {
         let r1 = c.k.unsigned_abs() as i128 * inc; // magnitude
         let r2 = r1 + inc;
         let start = Ymd::new(c.y, c.m, c.d);
+        let ov = if c.end_clamped { Overflow::Constrain } else { Overflow::Reject };
         let add = |n: i128| -> Option<Ymd> {
             let n = sign * n;
             match c.unit {
-                U::Year => date_add(start, n, 0, 0, 0, Overflow::Reject).ok(),
-                U::Month => date_add(start, 0, n, 0, 0, Overflow::Reject).ok(),
-                U::Week => date_add(start, 0, 0, n, 0, Overflow::Reject).ok(),
+                U::Year => date_add(start, n, 0, 0, 0, ov).ok(),
+                U::Month => date_add(start, 0, n, 0, 0, ov).ok(),
+                U::Week => date_add(start, 0, 0, n, 0, ov).ok(),
                 _ => None,
             }
         };
@@ -86,22 +92,40 @@ impl SubCheck for CalSub {
         // half-way point; the span is a whole number of days so the sum is even
         let mid = (a_ns + b_ns) / 2;
         let delta = if date_route { 0 } else { c.delta as i128 };
+        if c.end_clamped && (c.negative || b.d >= start.d || a.d < start.d && r1 != 0) {
+            // not the shape this class is about (the end was not clamped, or the lower neighbour was clamped too)
+            o.unjudged = true;
+            return o.class("end-clamped:not-applicable");
+        }
         // delta > 0 means nearer to b: b lies in direction `sign` from a
-        let other_ns = mid + sign * delta;
+        let other_ns = if c.end_clamped { b_ns } else { mid + sign * delta };
         let other = Dt { day: other_ns.div_euclid(NS_PER_DAY) as i64, ns: other_ns.rem_euclid(NS_PER_DAY) };
         let start_dt = Dt { day: start.n(), ns: ns0 };
         if !other.in_range() || !start_dt.in_range() || !(Dt { day: b.n(), ns: ns0 }).in_range() || !(Dt { day: a.n(), ns: ns0 }).in_range() {
             o.unjudged = true;
             return o.class("out-of-range-construction");
         }
-        if date_route && other.ns != 0 {
+        if date_route && other.ns != 0 && !c.end_clamped {
             o.unjudged = true;
             return o.class("date-route-odd-span");
         }
         // exact value in units: sign * (r1 + inc * (1/2 + delta * eps)); as a rational with denominator 2000
         let num = sign * ((2 * r1 + inc) * 1000 + delta);
         let since = matches!(c.route, Route::DateTimeSince | Route::DateSince);
-        let want: i128 = if since { -round_rational(num, 2000, inc, c.mode.negated()) } else { round_rational(num, 2000, inc, c.mode) };
+        let want: i128 = if c.end_clamped {
+            if since {
+                -r2
+            } else {
+                r2
+            }
+        } else if since {
+            -round_rational(num, 2000, inc, c.mode.negated())
+        } else {
+            round_rational(num, 2000, inc, c.mode)
+        };
+        if c.end_clamped {
+            o = o.class("end-clamped:progress=1");
+        }
         o = o.class(match delta {
             0 => "tie",
             d if d < 0 => "tie-1ns",
@@ -213,11 +237,19 @@ pub fn cal_case() -> BoxedStrategy<CalCase> {
     let inc = prop_oneof![4 => 1u32..=12, 1 => prop_oneof![Just(20u32), Just(25), Just(50), Just(100)]];
     let ymd = (prop_oneof![3 => 1900i64..=2100, 1 => -260_000i64..=260_000], 1u8..=12, 1u8..=28);
     let ns = prop_oneof![2 => Just(0i128), 1 => 0..NS_PER_DAY, 1 => Just(NS_PER_DAY - 1)];
-    (route, unit, inc, ymd, ns, 0i64..=40, any::<bool>(), prop_oneof![2 => Just(0i8), 1 => Just(-1i8), 1 => Just(1i8)], crate::gen::mode())
-        .prop_map(|(route, unit, inc, (y, m, d), ns, k, negative, delta, mode)| {
+    (route, unit, inc, ymd, ns, 0i64..=40, any::<bool>(), prop_oneof![2 => Just(0i8), 1 => Just(-1i8), 1 => Just(1i8)], crate::gen::mode(), (prop::bool::weighted(0.15), 29u8..=31))
+        .prop_map(|(route, unit, inc, (y, m, d), ns, k, negative, delta, mode, (end_clamped, late_day))| {
             // keep the far end within ~ +-265000 years
             let k = if unit == U::Year { k.min(4000 / inc as i64) } else { k };
-            CalCase { route, y, m, d, ns, unit, inc, k, negative, delta, mode }
+            if end_clamped {
+                // month-end start, forward direction, months (or years from a leap day)
+                let (unit, m, d) = if unit == U::Year { (U::Year, 2, 29) } else { (U::Month, m, late_day.min(dim(y, m))) };
+                let y = if unit == U::Year { y - y.rem_euclid(4) } else { y };
+                let d = d.min(dim(y, m));
+                let route = if route == Route::DurationRound { Route::DateTimeUntil } else { route };
+                return CalCase { route, y, m, d, ns, unit, inc, k, negative: false, delta: 0, mode, end_clamped: true };
+            }
+            CalCase { route, y, m, d, ns, unit, inc, k, negative, delta, mode, end_clamped: false }
         })
         .boxed()
 }
